@@ -448,6 +448,31 @@ def r10_reduce_keeps_offset(idx, r):
                   "grid without a centre cell: (w/2, h/2, 0) - is rebuilt at the origin")
 
 
+def r11_bounds_lookup(idx, r):
+    """ThetaRZGrid.indicesOfBounds answers 'which mesh line is this value' for values that come from input files and arithmetic, i.e. that
+    equal the stored bound only up to rounding (its own documentation promises a tolerance): the lookup must be by NEAREST bound.  An exact
+    ordering lookup (searchsorted / bisect / index / ==) returns the next cell for a value a hair above the stored one."""
+    f = idx.method("armi.reactor.grids.thetarz.ThetaRZGrid", "indicesOfBounds")
+    ret = next((n for n in walk_local(f.node) if isinstance(n, ast.Return) and isinstance(n.value, ast.Tuple) and len(n.value.elts) == 3), None)
+    if ret is None:
+        raise AnchorMissing("ThetaRZGrid.indicesOfBounds: return (i, j, k)")
+    env = single_assign_env(f.node)
+    ps = f.params()
+    for pos, (axis, arg) in enumerate(((0, ps[3]), (1, ps[1]))):
+        e = propagate(ret.value.elts[pos], env)
+        calls = [c for c in ast.walk(e) if isinstance(c, ast.Call)]
+        nearest = any(call_attr(c) == "argmin" or dotted(c.func) in ("np.argmin", "numpy.argmin") for c in calls) and any(dotted(c.func) in ("np.abs", "abs", "np.absolute", "np.fabs") for c in calls)
+        exact = [c for c in calls if (dotted(c.func) or "").rsplit(".", 1)[-1] in ("searchsorted", "bisect", "bisect_left", "bisect_right", "index", "digitize")] + [c for c in ast.walk(e) if isinstance(c, ast.Compare) and any(isinstance(o, ast.Eq) for o in c.ops)]
+        uses = f"self._bounds[{axis}]" in norm(e) and any(isinstance(x, ast.Name) and x.id == arg for x in ast.walk(e))
+        if nearest and uses and not exact:
+            r.ok(f"indicesOfBounds:axis{axis}:nearest-bound", f, node=ret)
+        elif exact:
+            r.violate(f"indicesOfBounds:axis{axis}:nearest-bound", f, f"index {pos} is `{norm(e)[:80]}`: an exact ordering lookup on real-valued bounds; a lower bound a rounding error above the stored mesh "
+                      "value (10-decimal input, i*dTheta) is assigned to the next cell", node=ret)
+        else:
+            raise AnalysisError(f"indicesOfBounds: lookup `{norm(e)[:80]}` not understood")
+
+
 def run(idx, chk):
     chk.explanation = (
         "C07: hex unit steps extracted as exact matrices over Q(sqrt3)[pitch]; neighbour vectors of length pitch in counter-clockwise 60-degree steps for "
@@ -473,3 +498,5 @@ def run(idx, chk):
                  necessary="'the least number of rings holding n cells is exact'")
     chk.run_rule("R07.10", "reduce() keeps the offset unless all three components are zero (8-pattern truth table)", lambda r: r10_reduce_keeps_offset(idx, r), floor=1,
                  necessary="'a grid rebuilt from its stored constructor arguments gives the same coordinates ... for every index'")
+    chk.run_rule("R07.11", "theta-R-Z indicesOfBounds finds the NEAREST mesh line (tolerant of rounding), in the (theta, r) argument order", lambda r: r11_bounds_lookup(idx, r), floor=2,
+                 necessary="indices <-> coordinates are mutually inverse for bounds-defined grids given values that equal the bounds up to rounding")
